@@ -580,6 +580,7 @@ type Proxy struct {
 	RevSub         func(ctx context.Context, tok int) (string, error)
 	CallNoRetry    func(ctx context.Context, tok int) (string, error) `rpc_method:"T.Call" retry:"false"`
 	Slow           func(ctx context.Context, tok int) (string, error)
+	ReadAllRetry   func(ctx context.Context, tok int, r io.Reader) (string, error) `rpc_method:"T.ReadAll" retry:"true"`
 }
 
 type Client struct {
